@@ -128,6 +128,8 @@ def mask_for(sigmaqn, shape, i, qn, qntot, qnidx):
 # ------------------------------------------------------------------ operand construction
 def _finish(ctx, mp, name, model, arrays, qn, qntot, qnidx, to_right, coeff):
     mp.model = model
+    if (not ctx.symbolic) and any(np.iscomplexobj(a) for a in arrays):
+        mp.to_complex(inplace=True)      # float build: the container's dtype decides what append() accepts
     for a in arrays:
         mp.append(a)
     mp.qn = [np.array(q, dtype=object if ctx.symbolic and _has_sym(q) else int).reshape(len(q), -1) for q in qn]
